@@ -322,8 +322,13 @@ func TestC01Histories(t *testing.T) {
 	for _, s := range sessions {
 		ops = append(ops, hop{"deleteSession", s, "", 0})
 	}
+	// replication echoes must not change who matches: the node's own full state merged back, the last
+	// broadcast delivered again, and a peer's snapshot of the same state
+	ops = append(ops, hop{"echo-own-full-state", "", "", 0}, hop{"redeliver-last-broadcast", "", "", 0})
 	name := func(o hop) string {
 		switch o.kind {
+		case "echo-own-full-state", "redeliver-last-broadcast":
+			return o.kind
 		case "create":
 			return fmt.Sprintf("Create(%s,%s,q%d)", o.s, o.f, o.q)
 		case "delete":
@@ -343,13 +348,23 @@ func TestC01Histories(t *testing.T) {
 			n := newDNode("A", 1, 0)
 			active := map[string]int32{} // s|f -> qos
 			var names []string
+			var lastMsgs [][]byte
 			for _, oi := range seq {
 				o := ops[oi]
 				names = append(names, name(o))
 				steps++
 				if p := vk.Recover(func() {
-					n.do(func() {
+					msgs := n.do(func() {
 						switch o.kind {
+						case "echo-own-full-state":
+							peer := newDNode("P", 2, 0)
+							peer.st.Distributor().MergeRemoteState(n.st.Distributor().LocalState(false), true)
+							n.st.Distributor().MergeRemoteState(n.st.Distributor().LocalState(false), false)
+							n.st.Distributor().MergeRemoteState(peer.st.Distributor().LocalState(false), false)
+						case "redeliver-last-broadcast":
+							for _, m := range lastMsgs {
+								n.st.Distributor().NotifyMsg(m)
+							}
 						case "create":
 							n.st.Subscriptions().Create(o.s, []byte(o.f), o.q)
 							active[o.s+"|"+o.f] = o.q
@@ -365,6 +380,9 @@ func TestC01Histories(t *testing.T) {
 							}
 						}
 					})
+					if len(msgs) > 0 {
+						lastMsgs = msgs
+					}
 				}); p != nil {
 					rep.Violate(vk.Violation{Sig: "c01-hist-panic:" + o.kind, Msg: fmt.Sprintf("after %v: panic %v", names, p), Replay: map[string]any{"ops": append([]string{}, names...)}})
 					return
